@@ -149,6 +149,8 @@ def _ops(n):
         "precompute_eager": lambda w: (w.vk.precompute(lazy=False), _aff(w.vk.pubkey.point))[1],
         "sign": lambda w: w.sk.sign_deterministic(MSG).hex(),
         "pub_x": lambda w: int(w.vk.pubkey.point.x()),
+        "vk_to_string": lambda w: (w.vk.to_string("compressed").hex(), w.vk.to_string().hex()),
+        "vk_eq": lambda w: (w.vk == w.sk.get_verifying_key(), w.vk != w.vk2),
     }
 
 
@@ -297,7 +299,7 @@ MUTATORS = ["mul_gen", "rmul_gen", "mul_P", "scale_P", "affine_P", "muladd", "mu
 
 
 SECOND_QUICK = ["x_P", "eq_same", "add_PQ", "pickle_P", "pickle_gen", "mul_gen", "mul_P", "verify", "affine_P",
-                "pub_x", "muladd", "scale_P", "verify_other_key"]
+                "pub_x", "muladd", "scale_P", "verify_other_key", "vk_to_string"]
 
 
 def units(tier, seed):
